@@ -935,6 +935,9 @@ class SymInt(object):
             return self._bin(o, lambda a, b: z3.UDiv(a, b))
         return self._bin(o, lambda a, b: a / b)
 
+    def __truediv__(self, o):
+        return self.__index__() / o
+
     def __rshift__(self, o):
         if self.bv:
             return self._bin(o, lambda a, b: z3.LShR(a, b))
